@@ -97,10 +97,10 @@ class Universe(object):
         for el in table:
             if el.number < 1:
                 continue
-            if el.neutron.has_sld():
+            if self.has_data(el):
                 self.elements.append((el.number, 0, 0))
             for A in el.isotopes:
-                if el[A].neutron.has_sld():
+                if self.has_data(el[A]):
                     self.isotopes.append((el.number, A, 0))
         neutral = self.elements + self.isotopes
         self.edep = [k for k in neutral if self.atom(k).neutron.nsf_table is not None]
@@ -116,6 +116,14 @@ class Universe(object):
                     self.clip.append(k)
         self.classes = {'element': self.elements, 'isotope': self.isotopes, 'edep': self.edep,
                         'ion': self.ions, 'isotope_ion': self.isotope_ions, 'clip': self.clip}
+
+    @staticmethod
+    def has_data(atom):
+        """Complete scattering data: a scattering length and a total cross section (or an energy table).
+        Not `has_sld()`: that also asks for a tabulated *element* density, which a compound with a given density
+        does not need (Ra, Ra[226]; neutron_scattering accepts them since /repo 0b7e9c8)."""
+        n = atom.neutron
+        return n.b_c is not None and (n.nsf_table is not None or n.total is not None)
 
     def atom(self, k):
         return atoms_mod.lookup(self.table, tuple(k))
